@@ -23,6 +23,7 @@ type Val struct {
 	L []string          `json:"l,omitempty"`
 	M map[string]string `json:"m,omitempty"`
 	N []string          `json:"n,omitempty"` // map keys whose value is null
+	E [][]Write         `json:"e,omitempty"` // K == "list": the written settings of each element (paths below the element)
 }
 
 const redacted = "[REDACTED]"
@@ -51,6 +52,12 @@ func (v Val) yaml() any {
 			m[k] = nil
 		}
 		return m
+	case "list":
+		l := make([]any, 0, len(v.E))
+		for _, e := range v.E {
+			l = append(l, bodyOf(e))
+		}
+		return l
 	case "null":
 		return nil
 	case "emptymap":
@@ -65,6 +72,8 @@ func (v Val) String() string {
 		return fmt.Sprintf("%q", v.L)
 	case "smap", "omap":
 		return fmt.Sprintf("%q+null%q", v.M, v.N)
+	case "list":
+		return fmt.Sprintf("list of %d elements", len(v.E))
 	}
 	return fmt.Sprintf("%s(%q)", v.K, v.S)
 }
@@ -468,6 +477,9 @@ func leafGen(k *compKind, n *schemaNode) func(t *rapid.T) Val {
 	ty := n.Type
 	key := last(n.Path)
 	tname := ty.String()
+	if k.Section == "elem" && key == "endpoint" {
+		return nil // the telemetry migration shims normalise OTLP endpoints of readers/processors
+	}
 
 	// text-unmarshaled types: curated by type
 	if implementsTextUnmarshaler(ty) {
